@@ -23,6 +23,19 @@
 // the output buffer the evaluator allocates) flush against a PROT_NONE page - run 1 flush with the page AFTER the buffer, run 2 flush with the
 // page BEFORE it; a stray vector load/store faults and the runner records kind=crash.  Under ASan the allocator is left alone (ASan checks).
 //
+// Not instantiable, hence not in the space (compile-time rejections): reciprocal with any context (no ufunc_simd_t specialisation: incomplete
+// type), divide.outer (does not exist), matmul with a row-major rhs (static_assert), integer element types are not enumerated (the unary
+// evaluator static_asserts floating point).  subtract/divide .reduce are left out because "equal up to re-association" is not defined for a
+// non-associative operation.
+//
+// Bounds.  E = {1,2,lanes-1,lanes,lanes+1,2*lanes+1}, V = {1,2,lanes,lanes+1}.
+//   quick   : float only; 1-D counts 1..2*lanes+1 (un, bin, red, outer right operand, matmul K); 2-D shapes ExE (un both layouts; bin every pair
+//             of {(r,c),(1,c),(r,1),(1,1)} that broadcasts to (r,c), 4 layout combinations; red); 3-D shapes VxVxV (un, same-shape bin, red);
+//             red: every axis in positive and negative spelling + None, 4 keepdims forms, both layouts; outer: left S(1..2,{1,2,3}) x right
+//             {counts, S(2,V)}, 4 layout combinations; matmul M,N in {1,2,lanes+1}, lhs both layouts.
+//   thorough: float and double; counts 1..4*lanes+1; outer additionally left S(3,{1,2,3}) and right S(3,V) (3-d x 3-d: leading right extent <= 2;
+//             3-d left x 1-D right: counts <= lanes+1, 2*lanes+1, 4*lanes+1).
+//
 // Non-triviality rule: a case is non-trivial iff at least one full SIMD pack is processed, i.e. the extent the evaluator vectorises has at
 // least `lanes` elements: un / same-shape bin: element count >= lanes; broadcast bin: result columns >= lanes; outer: last extent of the
 // right operand >= lanes; red axis=None: element count >= lanes; red over the last axis: that extent >= lanes; red over another axis:
@@ -167,6 +180,11 @@ void operator delete(void* p, size_t, std::align_val_t) noexcept { c12_delete(p)
 void operator delete[](void* p, size_t, std::align_val_t) noexcept { c12_delete(p); }
 #else
 namespace guard { struct Scope { Scope(int) {} }; }
+#endif
+#if defined(__SANITIZE_ADDRESS__)
+// the pinned tree has thousands of out-of-bounds cases: keep each ASan report cheap (no symbolisation, no allocation stacks);
+// keys given in the ASAN_OPTIONS environment variable still take precedence
+extern "C" const char* __asan_default_options() { return "symbolize=0:malloc_context_size=0:detect_leaks=0:abort_on_error=1:print_legend=0"; }
 #endif
 
 // ---------------------------------------------------------------------------------------------------------------------
@@ -485,7 +503,7 @@ template <typename T> static Outcome execute_t(const Case& c) {
 Outcome nmc_execute(const Case& c) {
     nm::verif::on_eval_shape_mismatch = on_refuse;
     long dt = c.op == "mm" ? c.a[0][0] : c.a[0][1];
-    nmc::count(dt ? "cases_f64" : "cases_f32");
+    nmc::count(dt ? "cases_f64" : "cases_f32"); nmc::count("ctx_" C12_NAME);
     if (dt == 0) {
 #ifdef C12_ONLY_F32
         return execute_t<float>(c);
